@@ -116,7 +116,7 @@ theorem shrinks_closePInButtonScope (c : Cfg) : Shrinks (Tree.closePInButtonScop
   · exact shrinks_closeP t
   · exact Shrinks.id t
 
-theorem shrinks_removeFromStack (id : Nat) : Shrinks (Tree.removeFromStack · id) :=
+theorem shrinks_removeFromStack (id : El) : Shrinks (Tree.removeFromStack · id) :=
   shrinks_stack _ (fun _ _ he => (List.mem_filter.mp he).1)
 
 theorem shrinks_anyOtherEndTag (c : Cfg) (n : Name) : Shrinks (Tree.anyOtherEndTag c · n) := by
@@ -139,7 +139,7 @@ theorem shrinks_pushMarker : Shrinks Tree.pushMarker := by
 theorem shrinks_clearAfeToMarker : Shrinks Tree.clearAfeToMarker :=
   fun t => ⟨fun _ h => h, fun x hx => clearToMarker_sub _ _ hx⟩
 
-theorem shrinks_removeFromAfe (id : Nat) : Shrinks (Tree.removeFromAfe · id) :=
+theorem shrinks_removeFromAfe (id : El) : Shrinks (Tree.removeFromAfe · id) :=
   fun t => ⟨fun _ h => h, fun x hx => (List.mem_filter.mp hx).1⟩
 
 theorem shrinks_closeListItem (c : Cfg) (l : List Name) : Shrinks (Tree.closeListItem c l) := by
@@ -178,7 +178,7 @@ theorem TreeOk.closeP' {P : NP} {t : Tree}  (ht : TreeOk P t) : TreeOk P (Tree.c
   (shrinks_closeP).ok ht
 theorem TreeOk.closePInButtonScope' {P : NP} {t : Tree} (c : Cfg) (ht : TreeOk P t) : TreeOk P (Tree.closePInButtonScope c t) :=
   (shrinks_closePInButtonScope c).ok ht
-theorem TreeOk.removeFromStack' {P : NP} {t : Tree} (id : Nat) (ht : TreeOk P t) : TreeOk P (Tree.removeFromStack t id) :=
+theorem TreeOk.removeFromStack' {P : NP} {t : Tree} (id : El) (ht : TreeOk P t) : TreeOk P (Tree.removeFromStack t id) :=
   (shrinks_removeFromStack id).ok ht
 theorem TreeOk.anyOtherEndTag' {P : NP} {t : Tree} (n : Name) (c : Cfg) (ht : TreeOk P t) : TreeOk P (Tree.anyOtherEndTag c t n) :=
   (shrinks_anyOtherEndTag c n).ok ht
@@ -186,7 +186,7 @@ theorem TreeOk.pushMarker' {P : NP} {t : Tree}  (ht : TreeOk P t) : TreeOk P (Tr
   (shrinks_pushMarker).ok ht
 theorem TreeOk.clearAfeToMarker' {P : NP} {t : Tree}  (ht : TreeOk P t) : TreeOk P (Tree.clearAfeToMarker t) :=
   (shrinks_clearAfeToMarker).ok ht
-theorem TreeOk.removeFromAfe' {P : NP} {t : Tree} (id : Nat) (ht : TreeOk P t) : TreeOk P (Tree.removeFromAfe t id) :=
+theorem TreeOk.removeFromAfe' {P : NP} {t : Tree} (id : El) (ht : TreeOk P t) : TreeOk P (Tree.removeFromAfe t id) :=
   (shrinks_removeFromAfe id).ok ht
 theorem TreeOk.closeListItem' {P : NP} {t : Tree} (l : List Name) (c : Cfg) (ht : TreeOk P t) : TreeOk P (Tree.closeListItem c l t) :=
   (shrinks_closeListItem c l).ok ht
@@ -304,7 +304,7 @@ theorem findFormatting_mem (n : Name) (l : List AfeEntry) (e : El) (h : findForm
       · injection h with h; subst h; simp
       · exact List.mem_cons_of_mem _ (ih h)
 
-theorem splitAtId_sub (id : Nat) (l : List El) (a b : List El) (h : splitAtId id l = some (a, b)) :
+theorem splitAtId_sub (id : El) (l : List El) (a b : List El) (h : splitAtId id l = some (a, b)) :
     (∀ e ∈ a, e ∈ l) ∧ (∀ e ∈ b, e ∈ l) := by
   induction l generalizing a b with
   | nil => cases h
@@ -353,18 +353,7 @@ theorem splitFurthest_sub (d : Dev) (above top btw : List El) (fb : El)
   · exact List.mem_reverse.mp h'
   · cases h'
 
-theorem findAfe_mem (t : Tree) (id : Nat) (x : El) (h : t.findAfe id = some x) : AfeEntry.el x ∈ t.afe := by
-  unfold Tree.findAfe at h
-  obtain ⟨y, hy, hf⟩ := List.exists_of_findSome?_eq_some h
-  cases y with
-  | marker => cases hf
-  | el z =>
-    simp only at hf
-    split at hf
-    · injection hf with hf; subst hf; exact hy
-    · cases hf
-
-theorem afeFmt_map_replace (l : List AfeEntry) (id : Nat) (ne : El) (hne : ne.name.isIn formattingNames = true)
+theorem afeFmt_map_replace (l : List AfeEntry) (id : El) (ne : El) (hne : ne.name.isIn formattingNames = true)
     (hl : ∀ x, AfeEntry.el x ∈ l → x.name.isIn formattingNames = true) :
     ∀ x, AfeEntry.el x ∈ l.map (fun y => if AfeEntry.hasId id y then AfeEntry.el ne else y) →
       x.name.isIn formattingNames = true := by
@@ -373,6 +362,15 @@ theorem afeFmt_map_replace (l : List AfeEntry) (id : Nat) (ne : El) (hne : ne.na
   split at hxy
   · injection hxy with hxy; subst hxy; exact hne
   · subst hxy; exact hl x hy
+
+theorem inAfe_mem (t : Tree) (x : El) (h : t.inAfe x = true) : AfeEntry.el x ∈ t.afe := by
+  unfold Tree.inAfe at h
+  obtain ⟨y, hy, hf⟩ := List.any_eq_true.mp h
+  cases y with
+  | marker => cases hf
+  | el z =>
+    simp only [AfeEntry.hasId, beq_iff_eq] at hf
+    subst hf; exact hy
 
 theorem aaaInner_ok {P : NP} (hP : FmtOk P) (between : List El) :
     ∀ (t : Tree) (k : Nat) (b : Bool), AfeFmt t → (∀ e ∈ between, P e.name e.ns) →
@@ -383,27 +381,23 @@ theorem aaaInner_ok {P : NP} (hP : FmtOk P) (between : List El) :
     intro t k b ht hb
     have hrest : ∀ e ∈ rest, P e.name e.ns := fun e he => hb e (List.mem_cons_of_mem _ he)
     simp only [aaaInner]
-    cases hm : (if k > 3 then none else t.findAfe node.id) with
-    | none =>
-      simp only
-      exact ih _ _ _ (fun x hx => ht x ((shrinks_removeFromAfe node.id t).2 x hx)) hrest
-    | some x =>
-      simp only
-      have hx : AfeEntry.el x ∈ t.afe := by
-        split at hm
-        · cases hm
-        · exact findAfe_mem t _ x hm
-      have hxf := ht x hx
+    split
+    · exact ih _ _ _ (fun x hx => ht x ((shrinks_removeFromAfe node t).2 x hx)) hrest
+    · rename_i hc
+      have hin : t.inAfe node = true := by
+        simp only [Bool.or_eq_true, decide_eq_true_eq, Bool.not_eq_true', not_or, Bool.not_eq_false] at hc
+        exact hc.2
+      have hxf := ht node (inAfe_mem t node hin)
       obtain ⟨h1, h2⟩ := ih
         { t with nextId := t.nextId + 1,
-                 afe := t.afe.map (fun y => if AfeEntry.hasId node.id y then .el ⟨t.nextId, .html, x.name, x.attrs⟩ else y) }
-        (k + 1) false (afeFmt_map_replace t.afe node.id _ hxf ht) hrest
+                 afe := t.afe.map (fun y => if AfeEntry.hasId node y then .el ⟨t.nextId, .html, node.name, node.attrs⟩ else y) }
+        (k + 1) false (afeFmt_map_replace t.afe node _ hxf ht) hrest
       refine ⟨h1, fun e he => ?_⟩
       rcases List.mem_cons.mp he with rfl | he
       · exact hP _ hxf
       · exact h2 e he
 
-theorem insertAfterId_mem (x : AfeEntry) (id : Nat) (l : List AfeEntry) : ∀ y ∈ insertAfterId x id l, y = x ∨ y ∈ l := by
+theorem insertAfterId_mem (x : AfeEntry) (id : El) (l : List AfeEntry) : ∀ y ∈ insertAfterId x id l, y = x ∨ y ∈ l := by
   induction l with
   | nil => intro y hy; simp only [insertAfterId, List.mem_singleton] at hy; exact Or.inl hy
   | cons z zs ih =>
@@ -428,10 +422,10 @@ theorem aaaIter_ok {P : NP} (hP : FmtOk P) (c : Cfg) (t : Tree) (subject : Name)
     have hfe : fe.name.isIn formattingNames = true := ht.afe fe (findFormatting_mem _ _ _ hf)
     simp only
     split
-    · exact (shrinks_removeFromAfe fe.id).ok ht
+    · exact (shrinks_removeFromAfe fe).ok ht
     · split
       · exact ht
-      · cases hs : splitAtId fe.id t.stack with
+      · cases hs : splitAtId fe t.stack with
         | none => exact ht
         | some ab =>
           obtain ⟨above, below⟩ := ab
@@ -440,7 +434,7 @@ theorem aaaIter_ok {P : NP} (hP : FmtOk P) (c : Cfg) (t : Tree) (subject : Name)
           cases hfb : splitFurthest c.dev above with
           | none =>
             simp only
-            exact (shrinks_removeFromAfe fe.id).ok ⟨fun e he => ht.stack e (hb e he), ht.afe⟩
+            exact (shrinks_removeFromAfe fe).ok ⟨fun e he => ht.stack e (hb e he), ht.afe⟩
           | some r =>
             obtain ⟨top, fb, between⟩ := r
             obtain ⟨h1, h2, h3⟩ := splitFurthest_sub _ _ _ _ _ hfb
@@ -456,7 +450,7 @@ theorem aaaIter_ok {P : NP} (hP : FmtOk P) (c : Cfg) (t : Tree) (subject : Name)
               · exact ht.stack e (hb e he)
             · simp only at hx
               split at hx
-              · exact afeFmt_map_replace _ fe.id ⟨_, .html, fe.name, fe.attrs⟩ hfe i1 x hx
+              · exact afeFmt_map_replace _ fe ⟨_, .html, fe.name, fe.attrs⟩ hfe i1 x hx
               · have hx' := (List.mem_filter.mp hx).1
                 rcases insertAfterId_mem _ _ _ _ hx' with h | h
                 · injection h with h; subst h; exact hfe
